@@ -127,6 +127,18 @@ KEmpty(p) ==
   /\ stale' = stale \cup {p}
   /\ UNCHANGED <<kcfg, kx, kph, stack, tried, hk, att, kctx, know, kstat, kret, ktick, pgLast,
                  liveInv, khist, keff, uuids>>
+\* environment inside a tick, before anything was attempted: a cgroup that is only reachable by descending from its
+\* parent (not a candidate yet) is removed with its subtree right when oomd is about to open it through the parent's
+\* directory.  Its name may still be in the parent's listing; it cannot be opened any more: it simply is no child.
+OnStack(q) == \E i \in DOMAIN stack : IsUnder(stack[i].path, q)
+KGone(q) ==
+  \* (kill_by_pg_scan's sampling-only run walks the tree too: the specification is already at its return then)
+  /\ (kph = "idle" \/ (kph = "dfs" /\ ~tried) \/ (kph = "ret" /\ kret = "ASYNC" /\ ~hk.has)) /\ Exists(q) /\ Len(q) >= 2 /\ ~OnStack(q)
+  /\ \A i \in DOMAIN khist : ~IsUnder(khist[i].path, q)          \* nothing of it was looked at in this run
+  /\ kw' = kw \ {n \in kw : IsUnder(n.path, q)}
+  /\ UNCHANGED <<stale, kcfg, kx, kph, stack, tried, hk, att, kctx, know, kstat, kret, ktick, pgLast,
+                 liveInv, khist, keff, uuids>>
+
 \* the populated flag as the walk may see it: the current one, or the one cached before the cgroup emptied
 PopSeen(p) == {Node(p).pop} \cup (IF p \in stale THEN {TRUE} ELSE {})
 
